@@ -26,6 +26,19 @@ def unsafe_sites(program, modules):
     out = []
     for m, n, r, attr in query.calls(program, modules):
         if r and r.startswith("ext:yaml.") and r.split(".")[-1] in libfacts.UNSAFE_YAML_CALLS:
+            if r.split(".")[-1] in ("load", "load_all"):
+                # yaml.load(stream, Loader=X) is exactly X(stream).get_single_data(): safe iff X is; X is judged by O18.2
+                lk = [k.value for k in n.keywords if k.arg == "Loader"] or list(n.args[1:2])
+                if lk:
+                    lr = program.resolve(m, lk[0]) if not isinstance(lk[0], ast.Call) else None
+                    if lr and lr.startswith("ext:yaml.") and lr.split(".")[-1] in libfacts.SAFE_YAML_LOADERS:
+                        continue
+                    if lr == LOADER:
+                        continue
+                    if isinstance(lk[0], ast.Name) and m.name in program.modules:
+                        fi = program.enclosing_function(m, n)
+                        if fi is not None and lk[0].id in [a.arg for a in fi.node.args.args + fi.node.args.kwonlyargs]:
+                            continue  # the loader is a parameter: traced back to load() by O18.2
             out.append((m, n, "call of %s" % r[4:]))
         if attr == "add_multi_constructor" or (r or "").endswith(".add_multi_constructor"):
             out.append((m, n, "add_multi_constructor registers a constructor for a whole tag prefix"))
@@ -102,19 +115,55 @@ def run(chk):
             args = list(n.args) + [k.value for k in n.keywords]
             if not any(prog.resolve(load.module, a) == LOADER for a in args if not isinstance(a, ast.Constant)):
                 chk.bad("O18.2", load.qual, "constructor plugins are registered on a different loader than the one that reads the document", node=n, stmt="plugins-other-loader")
-    # load_configuration instantiates exactly its loader parameter and reads through it
-    inst = [n for n in ast.walk(yl.node) if isinstance(n, ast.Call) and isinstance(n.func, ast.Name) and n.func.id == "loader"]
-    reads = [n for n in ast.walk(yl.node) if isinstance(n, ast.Call) and isinstance(n.func, ast.Attribute) and n.func.attr in ("get_single_data", "get_data")]
+    # the document is read through exactly the loader handed to load_configuration (possibly via module helpers)
     chk.count(2)
-    if len(inst) != 1 or len(reads) != 1:
-        chk.bad("O18.2", yl.qual, "the YAML reader does not instantiate exactly its `loader` parameter and read one document through it (%d instantiations, %d reads)" % (len(inst), len(reads)), node=yl.node, stmt="reader-shape")
+    reads = []  # (function, node, loader expression)
+    for f in prog.functions.values():
+        if f.module is not yl.module:
+            continue
+        for n in ast.walk(f.node):
+            if isinstance(n, ast.Call) and isinstance(n.func, ast.Attribute) and n.func.attr in ("get_single_data", "get_data") and isinstance(n.func.value, ast.Name):
+                var = n.func.value.id
+                src = None
+                for a in ast.walk(f.node):
+                    if isinstance(a, ast.Assign) and isinstance(a.value, ast.Call) and any(isinstance(t, ast.Name) and t.id == var for t in a.targets):
+                        src = a.value.func
+                reads.append((f, n, src))
+            elif isinstance(n, ast.Call) and (prog.resolve(f.module, n.func) or "") in ("ext:yaml.load", "ext:yaml.load_all"):
+                lk = [k.value for k in n.keywords if k.arg == "Loader"] or list(n.args[1:2])
+                reads.append((f, n, lk[0] if lk else None))
+
+    def traces_to_param(f, expr, depth=0):
+        """does expr (a Name) in f denote load_configuration's `loader` parameter?"""
+        if not isinstance(expr, ast.Name) or depth > 3:
+            return False
+        params = [a.arg for a in f.node.args.args + f.node.args.kwonlyargs]
+        if expr.id not in params:
+            return False
+        if f is yl:
+            return expr.id == "loader"
+        idx = params.index(expr.id)
+        sites = []
+        for g in prog.functions.values():
+            if g.module is not f.module:
+                continue
+            for c in ast.walk(g.node):
+                if isinstance(c, ast.Call) and isinstance(c.func, ast.Name) and c.func.id == f.name:
+                    arg = None
+                    for k in c.keywords:
+                        if k.arg == expr.id:
+                            arg = k.value
+                    if arg is None and idx < len(c.args):
+                        arg = c.args[idx]
+                    sites.append((g, arg))
+        return bool(sites) and all(arg is not None and traces_to_param(g, arg, depth + 1) for g, arg in sites)
+
+    if len(reads) != 1:
+        chk.bad("O18.2", yl.qual, "the YAML reader module reads documents at %d sites (required: exactly one read, through the given loader)" % len(reads), node=yl.node, stmt="reader-shape")
     else:
-        var = None
-        for n in ast.walk(yl.node):
-            if isinstance(n, ast.Assign) and n.value is inst[0] and isinstance(n.targets[0], ast.Name):
-                var = n.targets[0].id
-        if var is None or dotted(reads[0].func.value) != var:
-            chk.bad("O18.2", yl.qual, "the document is read through %s, not through the instance of the given loader" % util.unparse(reads[0].func.value), node=reads[0], stmt="reads-through")
+        f, n, lexpr = reads[0]
+        if lexpr is None or not traces_to_param(f, lexpr):
+            chk.bad("O18.2", f.qual, "the document is read with %s, which is not the loader handed to load_configuration" % (util.unparse(lexpr) if lexpr is not None else "no explicit loader"), node=n, stmt="reads-through")
         else:
             a = yl.node.args
             defaults = dict(zip([x.arg for x in a.args][len(a.args) - len(a.defaults):], a.defaults))
@@ -123,7 +172,7 @@ def run(chk):
             if r is not None and r.split(".")[-1] not in libfacts.SAFE_YAML_LOADERS:
                 chk.bad("O18.2", yl.qual, "the default loader of the YAML reader is %s" % r[4:], node=d, stmt="default-loader %s" % r[4:])
             else:
-                chk.ok("O18.2", yl.qual, "instantiates exactly its loader parameter (default %s) and reads through it" % (r[4:] if r else "none"), node=yl.node)
+                chk.ok("O18.2", yl.qual, "reads exactly one document through its loader parameter (default %s)" % (r[4:] if r else "none"), node=n)
     # ---- O18.3 zero unsafe API sites (+ positive control) ------------------------------------
     ctl = unsafe_sites(prog, [query.adhoc_module(prog, CONTROL)])
     if len(ctl) < 8:
@@ -137,40 +186,48 @@ def run(chk):
     if not sites:
         chk.ok("O18.3", "<package>", "zero calls of yaml.load / load_all / unsafe_load / full_load, no unsafe loader class, no add_multi_constructor, no python/ tag literal")
     # ---- O18.4 add_constructor only for '!' + entry point name ----------------------------------
+    from ..interp import Interp, show
+    from .c19 import template
+
     addc = [(m, n) for m, n, r, attr in query.calls(prog) if attr == "add_constructor"]
     chk.count(len(addc))
-    good = 0
+    fn = prog.func(ADD_PLUGINS)
     for m, n in addc:
         w = query.where(prog, m, n)
-        kw = {k.arg: k.value for k in n.keywords}
-        tag = kw.get("tag", n.args[0] if n.args else None)
         if w != ADD_PLUGINS:
             chk.bad("O18.4", w, "a YAML constructor is registered outside add_constructor_plugins", node=n, stmt="add_constructor elsewhere")
+    good = 0
+    for o in Interp(prog, fn, unroll=1).run():
+        iters = [e for e in o.path.events if e[0] == "loop-iter"]
+        if len(iters) != 1 or o.kind == "raise":
             continue
-        ok = isinstance(tag, ast.BinOp) and isinstance(tag.op, ast.Add) and isinstance(tag.left, ast.Constant) and tag.left.value == "!" and util.unparse(tag.right).endswith(".name")
-        if not ok:
-            if isinstance(tag, ast.Constant) and tag.value is None:
-                chk.bad("O18.4", w, "a constructor is registered for tag None: it catches EVERY unregistered tag instead of rejecting it", node=n, stmt="tag None")
-            else:
-                chk.bad("O18.4", w, "constructors are registered under %s instead of '!' + entry point name" % util.unparse(tag), node=n, stmt="tag %s" % util.unparse(tag))
-            continue
-        recv = dotted(n.func.value)
-        fn = prog.func(ADD_PLUGINS)
-        if recv not in [a.arg for a in fn.node.args.args]:
-            chk.bad("O18.4", w, "constructors are registered on %s, not on the loader handed in" % recv, node=n, stmt="receiver %s" % recv)
-            continue
-        good += 1
-    fn = prog.func(ADD_PLUGINS)
+        regs = [e[1] for e in o.path.events if e[0] == "call" and e[1][1][0] == "attr" and e[1][1][2] == "add_constructor"]
+        for ct in regs:
+            kw = dict((k, v) for k, v in ct[3] if k)
+            tag = kw.get("tag", ct[2][0] if ct[2] else None)
+            recv = ct[1][1]
+            if tag == ("const", None):
+                chk.bad("O18.4", ADD_PLUGINS, "a constructor is registered for tag None: it catches EVERY unregistered tag instead of rejecting it", node=fn.node, stmt="tag None")
+                continue
+            tpl = template(tag) if tag is not None else None
+            if not (tpl and len(tpl) == 2 and tpl[0] == "!" and isinstance(tpl[1], tuple) and tpl[1][0] == "attr" and tpl[1][2] == "name" and tpl[1][1][0] == "item"):
+                chk.bad("O18.4", ADD_PLUGINS, "constructors are registered under %s instead of '!' + entry point name" % (show(tag) if tag else "nothing"), node=fn.node, stmt="tag %s" % (show(tag) if tag else ""))
+                continue
+            if recv != ("sym", "loader") and recv[0] != "sym":
+                chk.bad("O18.4", ADD_PLUGINS, "constructors are registered on %s, not on the loader handed in" % show(recv), node=fn.node, stmt="receiver")
+                continue
+            if recv[1] not in [a.arg for a in fn.node.args.args]:
+                chk.bad("O18.4", ADD_PLUGINS, "constructors are registered on %s, not on the loader handed in" % show(recv), node=fn.node, stmt="receiver")
+                continue
+            good += 1
     rejects = any(
-        isinstance(n, ast.If) and "name[0]" in util.unparse(n.test) and "'!'" in util.unparse(n.test) and any(isinstance(b, ast.Raise) for b in n.body)
-        or isinstance(n, ast.If) and "startswith('!')" in util.unparse(n.test) and any(isinstance(b, ast.Raise) for b in n.body)
+        isinstance(n, ast.If) and any(isinstance(b, ast.Raise) for b in n.body) and "'!'" in util.unparse(n.test) and ("[0]" in util.unparse(n.test) or "startswith" in util.unparse(n.test))
         for n in ast.walk(fn.node)
     )
-    if good == 1 and rejects:
-        chk.ok("O18.4", ADD_PLUGINS, "add_constructor is called once, for '!' + entry.name on the given loader; names starting with '!' are rejected", node=fn.node)
-    elif good == 1:
-        chk.undecided("O18.4", ADD_PLUGINS, "rejection of names starting with '!' not recognised", node=fn.node, aux=True)
-        chk.ok("O18.4", ADD_PLUGINS, "add_constructor is called once, for '!' + entry.name on the given loader", node=fn.node)
+    if good >= 1 and not any(ob.rule == "O18.4" and ob.status == "violation" for ob in chk.obs):
+        if not rejects:
+            chk.undecided("O18.4", ADD_PLUGINS, "rejection of names starting with '!' not recognised", node=fn.node, aux=True)
+        chk.ok("O18.4", ADD_PLUGINS, "add_constructor is called for '!' + entry.name on the given loader%s" % ("; names starting with '!' are rejected" if rejects else ""), node=fn.node)
     elif not addc:
         chk.bad("O18.4", ADD_PLUGINS, "no constructor plugin is ever registered", node=fn.node, stmt="none")
     # ---- O18.5 trusted-base cross-read -------------------------------------------------------
